@@ -130,8 +130,6 @@ def check(run, replay=None):
         for tolv in tols:
             for dtn in dts:
                 n += 1
-                if not thorough and dtn != "float64" and (n + run.seed) % 3:
-                    continue
                 if dtn == "float32" and tolv is not None and tolv < 1e-6:
                     continue
                 jobs.append((cases, s, tolv, dtn))
